@@ -7,9 +7,11 @@ class C16(Prop):
     id = "C16"
     title = "Emulated UEs have distinct identities derived from the configured IMSI"
     lean_module = "Stgutg.Props.C16"
-    extra_modules = ["Stgutg.Proofs.GenTieUe", "Stgutg.Gen.PureSelftest"]
-    gen = ["pure-ue", "pure-selftest"]
-    theorems = [
+    extra_modules = ["Stgutg.Props.Glue.stgutg_CreateUE", "Stgutg.Props.Glue.tglib_NewRanUeContext", "Stgutg.Props.Glue.tglib_RanUeContext_GetUESecurityCapability", "Stgutg.Props.Glue.tglib_RanUeContext_Get5GMMCapability", "Stgutg.Props.Glue.tglib_GetAuthSubscription", "Stgutg.Proofs.GenTieUe", "Stgutg.Gen.PureSelftest"]
+    gen = ["pure-ue", "pure-selftest", "procs"]
+    theorems = ["Stgutg.Props.GluePinned." + t for t in [
+        # the glue functions this property depends on are still the text the models were written from (gen procs)
+        "stgutg_CreateUE", "tglib_NewRanUeContext", "tglib_RanUeContext_GetUESecurityCapability", "tglib_RanUeContext_Get5GMMCapability", "tglib_GetAuthSubscription"]] + [
         # tie by translation: the RAN-UE-NGAP-ID / SUPI arithmetic regenerated from ue.go IS the hand model; the rest of CreateUE is pinned as text
         "Stgutg.Proofs.GenTie.Ue.CreateUE_ids", "Stgutg.Proofs.GenTie.Ue.CreateUE_eq", "Stgutg.Proofs.GenTie.Ue.CreateUE_tail",
         "Stgutg.Props.C16.C16_supi_distinct",
